@@ -252,6 +252,31 @@ def asEdit (j : Json) : Except String Edit := do
   | "setDev" => return .setDev (← getNat j "n") (← (← getArr j "dev").mapM asDev)
   | e => throw s!"unknown edit {e}"
 
+/-- an editing call of the extended alphabet; the names of the first alphabet parse to `.base` -/
+def asEdit2 (j : Json) : Except String Edit2 := do
+  match ← getStr j "e" with
+  | "appendInput" => return .appendInput (← getNat j "g") (← getNat j "v")
+  | "popInput" => return .popInput (← getNat j "g")
+  | "setInit" => return .setInit (← getNat j "g") (← getStr j "key") (← getNat j "v")
+  | "delInit" => return .delInit (← getNat j "g") (← getStr j "key")
+  | "registerInit" => return .registerInit (← getNat j "g") (← getNat j "v")
+  | "sort" => return .sort (← getNat j "g")
+  | "insertBefore" => return .insertBefore (← getNat j "g") (← getNat j "anchor") (← getNat j "n")
+  | "insertAfter" => return .insertAfter (← getNat j "g") (← getNat j "anchor") (← getNat j "n")
+  | "replaceAllUses" => return .replaceAllUses (← getNat j "v") (← getNat j "r") (← getBool j "outs")
+  | "resizeInputs" => return .resizeInputs (← getNat j "n") (← getNat j "size")
+  | "resizeOutputs" => return .resizeOutputs (← getNat j "n") (← getNat j "size")
+  | "putFunc" => return .putFunc (← getNat j "mo") (← getOpt j "idx" asNat) (← getNat j "f")
+  | "delFunc" => return .delFunc (← getNat j "mo") (← getNat j "idx")
+  | _ => return .base (← asEdit j)
+
+def isBase : Edit2 → Option Edit
+  | .base e => some e
+  | _ => none
+
+/-- all edits are of the first alphabet: run them with `runHistory` / `functionalize` -/
+def allBase (es : List Edit2) : Option (List Edit) := es.mapM isBase
+
 def outcomeJ : Except Err (Option Nat) → Json
   | .ok none => obj [("r", "ok")]
   | .ok (some i) => obj [("r", "ok"), ("id", natJ i)]
@@ -272,10 +297,14 @@ def runStep (w : World) (j : Json) : Except String (Except Err (Option Nat) × W
     let (r, w') := run (modelClone fuel (← getNat j "mo")) w
     return (r.map some, w')
   | "edit" =>
-    let (r, w') := run (applyEdit (← asEdit j)) w
+    let (r, w') := run (applyEdit2 (← asEdit2 j)) w
     return (r.map fun _ => none, w')
   | "wellFormed" =>
     return (if wellFormed w && usesBounded w then .ok none else .error (.raised "dangling pointer"), w)
+  | "devLocal" =>
+    return (if devLocalW w then .ok none else .error (.raised "a sharding spec targets a value that is not an input/output of its node"), w)
+  | "wellFormed2" =>
+    return (if wellFormed2 w then .ok none else .error (.raised "dangling pointer (extended)"), w)
   | op => throw s!"unknown step {op}"
 
 def handle : Handler := fun m j =>
@@ -307,16 +336,21 @@ def handle : Handler := fun m j =>
   | "clone.functionalize" => some do
     -- `functionalize(pass)(model)` with the pass given as the edit history it performs
     let w0 ← (← getArr j "world").mapM asCell
-    let edits ← (← getArr j "edits").mapM asEdit
-    let (r, w1) := functionalize ((j.getObjValAs? Nat "fuel").toOption.getD 64) (fun _ _ => edits)
-      (← getNat j "mo") w0
+    let edits2 ← (← getArr j "edits").mapM asEdit2
+    let fuel := (j.getObjValAs? Nat "fuel").toOption.getD 64
+    let mo ← getNat j "mo"
+    let (r, w1) := match allBase edits2 with
+      | some edits => functionalize fuel (fun _ _ => edits) mo w0
+      | none => functionalize2 fuel (fun _ _ => edits2) mo w0
     return obj [("outcome", outcomeJ (r.map some)), ("world", Json.arr (w1.map cellJ).toArray)]
   | "clone.history" => some do
     -- a clone step followed by `runHistory` on a list of edits
     let w0 ← (← getArr j "world").mapM asCell
     let (r, w1) ← runStep w0 (← j.getObjVal? "clone")
-    let edits ← (← getArr j "edits").mapM asEdit
-    let (rs, w2) := runHistory edits w1
+    let edits2 ← (← getArr j "edits").mapM asEdit2
+    let (rs, w2) := match allBase edits2 with
+      | some edits => runHistory edits w1
+      | none => runHistory2 edits2 w1
     return obj [("outcomes", Json.arr ((outcomeJ r) :: rs.map (fun x => outcomeJ (x.map fun _ => none))).toArray),
                 ("world", Json.arr (w2.map cellJ).toArray)]
   | _ => none
